@@ -77,6 +77,45 @@ theorem unterminated_verbatim (st : Bool) (pad s pre post : Bytes) (h : findMark
 example : (tputsV false [] [97,36,60,53]).bytes = [97,36,60,53] :=
   unterminated_verbatim false [] _ [97] [53] (by decide) (by decide)
 
+theorem matchPad_none_of (b : Nat) (r : Bytes) (h : ¬ (b = 36 ∧ r.head? = some 60)) : matchPad (b :: r) = none := by
+  unfold matchPad
+  split
+  · rename_i heq
+    simp only [List.cons.injEq] at heq
+    obtain ⟨rfl, rfl⟩ := heq
+    exact absurd ⟨rfl, by simp⟩ h
+  · rfl
+
+theorem strip_no_marker (s : Bytes) (f : Nat) (hf : s.length ≤ f) (h : findMarker s = none) : stripAux f s = s := by
+  induction s generalizing f with
+  | nil => cases f <;> simp [stripAux]
+  | cons b r ih =>
+    cases f with
+    | zero => simp at hf
+    | succ f =>
+      simp only [findMarker] at h
+      split at h
+      · simp at h
+      · rename_i hb
+        have hb' : ¬ (b = 36 ∧ r.head? = some 60) := by simpa using hb
+        have hr : findMarker r = none := by
+          cases hfm : findMarker r with
+          | none => rfl
+          | some p => simp [hfm] at h
+        simp only [stripAux, matchPad_none_of b r hb']
+        rw [ih f (by simp at hf; omega) hr]
+
+/-- PARTIAL `tputs_spec` (`(TPuts s).bytes = stripPadding s`): proved for every string without a `$<` – there both the
+code (pinned or repaired, any pad character) and the reference leave the string unchanged.  Not proved: strings with
+markers (for the pinned code the statement is false, `tputs_nonpadding_counterexample`; for the repaired code and for
+strings whose every `$<…>` is a padding specification it is checked by the differential correspondence and the
+reference oracle on ~20 000 / 500 000 generated strings per run); `output_is_subsequence` is not proved either. -/
+theorem tputs_spec_partial (st : Bool) (pad s : Bytes) (h : findMarker s = none) :
+    (tputsV st pad s).bytes = stripPadding s := by
+  rw [no_marker_identity st pad s h, stripPadding, strip_no_marker s _ (Nat.le_refl _) h]
+
+example : (tputsV false [0] [27,91,72,36,62,60]).bytes = stripPadding [27,91,72,36,62,60] :=
+  tputs_spec_partial false [0] _ (by decide)
 /-! ### TGoto: closed forms of every distinct SetCursor program of the database -/
 
 /-- `ESC [ %i %p1 %d ; %p2 %d H` -/
